@@ -25,6 +25,8 @@ TOPOLOGIES = {
     "multigen": [(-1, -1), (-1, -1), (0, 1), (0, 1), (2, 3)],
     "backcross": [(-1, -1), (-1, -1), (0, 1), (2, 0)],
     "three_founders": [(-1, -1), (-1, -1), (-1, -1), (0, 1), (1, 2), (3, 4)],
+    "bigfamily": [(-1, -1), (-1, -1), (0, 1), (0, 1), (1, 0), (0, 1), (0, -1)],
+    "three_generations": [(-1, -1), (-1, -1), (0, 1), (-1, -1), (2, 3), (4, -1)],
 }
 
 
@@ -102,6 +104,10 @@ def gen_config(rng, tier, flavor="db"):
     }
     if not cfg["padding_skew"]:
         cfg["n_reads"] = [max(cfg["n_reads"])] * ns
+    # the order in which individuals are listed is arbitrary (children may precede their parents)
+    cfg["listing"] = list(range(ns))
+    if rng.random() < 0.5:
+        rng.shuffle(cfg["listing"])
     return cfg
 
 
@@ -179,11 +185,21 @@ class PedSim:
         self.haps, self.fl, self.truth, self.reads, self.counts = gen_instance(cfg)
         self.haps_l = self.haps.tolist()
         self.ns = len(cfg["parents"])
-        self.parents = np.array(cfg["parents"], dtype=np.int64)
-        self.ploidy = np.array(cfg["ploidy"], dtype=np.int64)
-        self.tau = np.array(cfg["tau"], dtype=np.int64)
-        self.lam = np.array(cfg["lambda"], dtype=np.float64)
-        self.err = np.array(cfg["error"], dtype=np.float64)
+        # relabel individuals: new index k holds the individual generated as listing[k]
+        lst = cfg.get("listing") or list(range(self.ns))
+        lst = [i for i in lst if i < self.ns] + [i for i in range(self.ns) if i not in lst]
+        new_of = {old: new for new, old in enumerate(lst)}
+        par = [[(new_of[p] if p >= 0 else -1) for p in cfg["parents"][old]] for old in lst]
+        self.parents = np.array(par, dtype=np.int64)
+        self.ploidy = np.array([cfg["ploidy"][o] for o in lst], dtype=np.int64)
+        self.tau = np.array([cfg["tau"][o] for o in lst], dtype=np.int64)
+        self.lam = np.array([cfg["lambda"][o] for o in lst], dtype=np.float64)
+        self.err = np.array([cfg["error"][o] for o in lst], dtype=np.float64)
+        self.truth = [self.truth[o] for o in lst]
+        self.reads = self.reads[lst]
+        self.counts = self.counts[lst]
+        if lst != list(range(self.ns)):
+            ctx.counters.inc("individuals_relisted")
         self.lf = np.log(np.array(self.fl, dtype=np.float64))
         self.mp = int(self.ploidy.max())
         # each sample's OWN positive-count reads, as known to the harness
